@@ -39,7 +39,7 @@ RULE = ("generated scripts of 1-14 operations over the store API (save/replace i
         "after the call returned (new value). Syscall-level crash points: one update of the script (generated position; a sweep over "
         "every position for seven fixed scripts) is also run in a process of its own under strace and killed (SIGKILL) at one of its "
         "write-type system calls (pwrite/fdatasync/unlink..., also inside SQLite's COMMIT); the directory it leaves is reopened with "
-        "the store class, compared the same way and checked with PRAGMA integrity_check. Non-trivial = a replace of an existing identity, "
+        "the store class, compared the same way and checked with PRAGMA integrity_check. Other-process scripts: every update is made by a child process started with its own hash seed and read back in this one. Non-trivial = a replace of an existing identity, "
         "session or sender key with >= 2 crash states, or a reopen after a delete. evaluations counts scripts plus crash states; "
         "distinct = distinct canonical JSON of the script.")
 ASSUMPTIONS = [
